@@ -25,6 +25,11 @@ def upStr (s : List Char) : List Char := s.map Char.toUpper
 /-- equality "up to letter case of mnemonic and attribute" is equality of `norm` -/
 def Fields.norm (f : Fields) : Fields := { f with op := upStr f.op, attr := upStr f.attr }
 
+/-- equality "up to letter case of mnemonic, attribute and parameters" (doc/assembler-usage.md: "AS is by default not case-sensitive, i.e. it does
+not matter whether one uses upper or lower case characters"; the parameters are compared this way only where they hold no character / string
+constant) is equality of `normAll` -/
+def Fields.normAll (f : Fields) : Fields := { f with op := upStr f.op, attr := upStr f.attr, args := f.args.map upStr }
+
 /-- a line that produces nothing: no label, no mnemonic, no arguments -/
 def Fields.isBlank (f : Fields) : Bool := f.lab.isEmpty && f.op.isEmpty && f.attr.isEmpty && f.args.isEmpty
 
